@@ -7,6 +7,7 @@ import (
 	"errors"
 
 	"github.com/NethermindEth/juno/blockchain"
+	"github.com/NethermindEth/juno/blockchain/statebackend"
 	"github.com/NethermindEth/juno/core"
 	"github.com/NethermindEth/juno/core/felt"
 	"github.com/NethermindEth/juno/feed"
@@ -77,7 +78,8 @@ func vxStore(_ *blockchain.Blockchain, b *core.Block, _ *core.BlockCommitments, 
 		return errors.New("block number difference between head and incoming block is not 1")
 	}
 	if len(vxLocal) > 0 && !b.ParentHash.Equal(&vxLocal[len(vxLocal)-1]) {
-		return blockchain.ErrParentDoesNotMatchHead
+		// what the real Store returns: the state backend's error value (verifyBlockSuccession)
+		return statebackend.ErrParentDoesNotMatchHead
 	}
 	vxLocal = append(vxLocal, *b.Hash)
 	vxStored = append(vxStored, b.Number)
